@@ -186,6 +186,47 @@ example : WellFormed ⟨[0x41, 0x2E, 0x66, 0x6F, 0x72, 0x6B, 0x31, 0x2E, 0x42], 
     [0x73, 0x70, 0x6C, 0x69, 0x74, 0x5F, 0x63, 0x6F, 0x6D, 0x70, 0x6C, 0x65, 0x74, 0x65]⟩ :=
   ⟨by decide, by decide, by intro d h; cases h; decide, by intro u h; cases h; decide, by decide⟩
 
+/-- Distinct (node, fork, chunk, attempt, file) records have distinct journal
+file names: in particular two attempts of one job (different uniquifiers) never
+share a journal name. -/
+theorem render_injective (x y : JName) (wx : WellFormed x) (wy : WellFormed y)
+    (h : x.render = y.render) : x = y := by
+  have hx := parseRun_render x wx
+  have hy := parseRun_render y wy
+  rw [h, hy] at hx
+  exact (Option.some.inj hx).symm
+
+/-! ### Routing to the node -/
+
+/-- `Node.find` returns the node with exactly the requested path: for a tree
+whose nodes have pairwise distinct fully-qualified ids `top.fqname.<path>`, the
+journal name `<path>` of node `i` is routed to node `i`, in whatever order the
+nodes are visited (Go map order), provided no node's full id is itself `<path>`
+(true in martian: every full id starts with `ID.<pipestance>.`, no path does).
+A name that merely shares a suffix or prefix with another node's id does not
+match it. -/
+theorem find_routes (top : Bytes) (fqids : List Bytes) (i : Nat) (n : Bytes)
+    (hnd : fqids.Nodup) (hi : fqids[i]? = some (top ++ cDot :: n)) (hno : ∀ f ∈ fqids, f ≠ n) :
+    findNode top fqids n = some i :=
+  findNode_routes top fqids i n hnd hi hno
+
+/-- and the node it returns has exactly that id (with or without the
+pipestance prefix), never one that only ends in it. -/
+theorem find_exact (top : Bytes) (fqids : List Bytes) (name : Bytes) (j : Nat)
+    (h : findNode top fqids name = some j) :
+    ∃ f, fqids[j]? = some f ∧ (f = top ++ cDot :: name ∨ f = name) := by
+  obtain ⟨f, hf, hm⟩ := findNode_sound top fqids name j h
+  refine ⟨f, hf, ?_⟩
+  simpa [nodeMatches] using hm
+
+-- TOP.WORK_A vs TOP.SUBTOP.WORK_A under pipestance ID.ps: hypotheses of find_routes are satisfiable
+example :
+    let top : Bytes := [0x49, 0x44, 0x2E, 0x70, 0x73]                        -- ID.ps
+    let a : Bytes := [0x54, 0x4F, 0x50, 0x2E, 0x41]                          -- TOP.A
+    let b : Bytes := [0x54, 0x4F, 0x50, 0x2E, 0x53, 0x55, 0x42, 0x54, 0x4F, 0x50, 0x2E, 0x41]  -- TOP.SUBTOP.A
+    let fqids := [top ++ cDot :: b, top ++ cDot :: a]
+    fqids.Nodup ∧ (∀ f ∈ fqids, f ≠ a) ∧ findNode top fqids a = some 1 := by decide
+
 /-! ### Routing to the fork -/
 
 /-- `getFork` returns the fork whose name was asked for: for a node whose forks
